@@ -553,7 +553,8 @@ class StorageSuite(Suite):
         return [gen_storage(rng, tier) for _ in range(n)]
 
     def _files(self, case):
-        return [core.SparseFile(sz * SECTOR, {}, salt=sa) for sz, sa in zip(case["sizes"], case["salts"])]
+        # an image may be longer than the range its storage declares (slack behind End belongs to nobody)
+        return [core.SparseFile((sz + (sa % 4) * 5) * SECTOR, {}, salt=sa) for sz, sa in zip(case["sizes"], case["salts"])]
 
     def impl(self, case):
         from types import SimpleNamespace
